@@ -22,6 +22,12 @@ def gen_pipeline(ctx, label, n):
             ns = dict(mp='spa', numinst=1, twopl=rng.random() < 0.5, skew=None, n1=rng.randint(1, 2), n2=n2,
                       n3=rng.randint(2, 3), pmin=1, pmax=1, t1=None, t2=None, lq=None, llq=None, uq=n2 + rng.randint(0, 1),
                       luq=1, lt=None)
+        large = (i % 10 == 4)
+        if large:
+            # 10..12 agents on every side (multi-digit numbers in the file); one-entry lists keep the specification's
+            # enumeration of all matchings small
+            ns = G.legal(rng, mp, lo=10, hi=12)
+            ns.update(numinst=1, pmin=1, pmax=1)
         twopl = ns['twopl']
         na = 3 if mp == 'spa' else 2
         bf = (rng.random() < 0.25 or corner) and ns['n1'] <= 4
@@ -39,6 +45,8 @@ def gen_pipeline(ctx, label, n):
             crits.append((nm, ex))
         if bf:
             crits = []
+        if large:
+            crits = crits[:1]
         argv = lpcommon.argv_of(na, twopl, pc, stab, crits, rng) + (['-bf'] if bf else [])
         yield dict(ns=ns, seed=rng.randrange(10**6), na=na, twopl=twopl, pc=pc, stab=stab, bf=bf,
                    crits=[[c, x] for c, x in crits], argv=argv)
@@ -69,7 +77,7 @@ class Pipeline(Relation):
                 '0..3 criteria, or -bf on small ones: the file loads without error, the model importer reads the same '
                 'instance (R_import) and it is well-formed with the requested counts, the LP result is judged by the '
                 'C01/C02/C05 monitors (valid, status iff feasible, stable under -stab, lexicographically optimal) and the '
-                'brute-force result by the C07 specification; non-trivial = n1 >= 2')
+                'brute-force result by the C07 specification; one run in ten has 10..12 agents on every side; non-trivial = n1 >= 2')
 
     def cases(self, ctx):
         return gen_pipeline(ctx, 'pipe', 500 if ctx.thorough else 100)
